@@ -67,8 +67,12 @@ pub(super) enum Carrier {
     /// DW_AT_import of a partial unit): the target unit may have nothing else retained
     AttrRefAddrOtherUnitRoot,
     ExprCallRefOtherUnitRoot,
+    /// DW_AT_sibling (a reference-class attribute that is navigation data, dropped by the
+    /// converter): must NOT make the next sibling a dependency
+    SiblingAttr,
 }
-const MORE_CARRIERS: [Carrier; 13] = [
+const MORE_CARRIERS: [Carrier; 14] = [
+    Carrier::SiblingAttr,
     Carrier::AttrRefAddrOtherUnitRoot,
     Carrier::ExprCallRefOtherUnitRoot,
     Carrier::ExprImplicitPointer,
@@ -250,6 +254,14 @@ pub(super) fn build_case(c: &mut Case) -> Option<Model> {
                 }
                 loclist(&mut units, su, sd, vec![Op::Call4(tgt(dd, su))]);
                 c.edges.push((src, dst));
+            }
+            Carrier::SiblingAttr => {
+                // only a real sibling pointer: dst is the next entry with the same parent
+                if src == 0 || dst <= src || c.parent[dst] != c.parent[src] || (src + 1..dst).any(|k| c.parent[k] == c.parent[src]) || !same_unit {
+                    return None;
+                }
+                push(&mut units, su, sd, at(AT_SIBLING, AV::Ref(FORM_REF4, tgt(dd, su))));
+                // no edge: the attribute is not a dependency
             }
             Carrier::AttrRefAddrOtherUnitRoot | Carrier::ExprCallRefOtherUnitRoot => {
                 if c.nunits != 2 || dst != 0 || src == 0 {
@@ -822,6 +834,7 @@ pub fn def(tier: Tier) -> CheckDef {
             "c19:carrier:LocListDefault".into(),
             "c19:carrier:LocListTombstone".into(),
             "c19:carrier:AttrRefAddrOtherUnitRoot".into(),
+            "c19:carrier:SiblingAttr".into(),
         ]
         .into_iter()
         .chain(super::split::required_c19())
